@@ -48,19 +48,19 @@ PER_CHECK = {
                "Commit outcomes (error class) and the committed state after every step are compared with the model, which fails a snapshot commit iff a written key has a newer committed version. Exploration.",
                "DESIGN.md section 4, C03", _MODEL_NOTE),
     "C04": _e1("crash", "fault enumeration under property-based generation: for each rapid-generated workload a child process is SIGKILLed at EVERY persistent mutation point (and inside recovery), recovered state judged against the set of allowed states",
-               "Crash points are enumerated exhaustively per workload at hook granularity (file create/write/close/remove, mkdir, Badger set/delete/transaction before+after), workloads are generated; the oracle computes the allowed states from the acknowledged prefix. fault_enumeration over generated workloads.",
+               "Crash points are enumerated exhaustively per workload at hook granularity (file create/write/close/remove, mkdir, Badger set/delete/transaction before+after) plus one kill right after every acknowledgement; workloads are generated; the oracle computes the allowed states from the acknowledged prefix. The thorough tier adds kills from outside at generated moments of the run (not hook-bound). fault_enumeration over generated workloads.",
                "DESIGN.md section 4, C04", "process kill only (page cache survives); hook granularity; " + _MODEL_NOTE),
     "C05": _e1("seq", "model-based stateful property testing (rapid) across Close/Open and across OS processes, with other databases opened in the same process",
                "Histories with reopen in the same process and in fresh child processes (which first open and write other databases) are compared with the model after every step and right after every open. Exploration.",
                "DESIGN.md section 4, C05", _MODEL_NOTE),
     "C09": _e1("seq", "model-based stateful property testing (rapid) with the collector at every position + metamorphic relation (same program without collector steps gives the same observations)",
-               "Collector runs are inserted at every position (half of the cases after EVERY step); all actors read everything before and after; additionally the observation log must equal that of the collector-free program. Exploration.",
+               "Collector runs are inserted at every position (half of the cases after EVERY step); all actors read everything immediately before and after every run and the two read-backs must be identical (no model in between); additionally the observation log must equal that of the collector-free program; a quarter of the cases also run the database's own collector every millisecond. Exploration.",
                "DESIGN.md section 4, C09", _MODEL_NOTE),
     "C10": _e1("faults", "fault injection driven by property-based generation (rapid): one write x fault kind x position x root subset x client, oracle 'error => old value, success => exact bytes'",
-               "Fault positions are drawn from boundary sets and at random over content lengths up to 100 KiB through seven client paths; the oracle reads back through independent clients. fault_enumeration over generated fault plans (not every byte position).",
+               "Fault positions are drawn from boundary sets and at random over content lengths up to 100 KiB through seven client paths (source errors, cancellation, broken connection, full and partial ENOSPC with per-root and staggered offsets, transient I/O errors at hook points); the oracle reads back through independent clients and, in every case, a fault-free follow-up write must succeed. fault_enumeration over generated fault plans (not every byte position).",
                "DESIGN.md section 4, C10", "hooks at File.Write / disk usage; asynchronous server-side completion is awaited by hook quiescence"),
     "C11": _e1("seq", "differential property testing (rapid): the inline history generators executed through the gRPC client against an in-process server, both clients held to the same reference model",
-               "The same generated histories that decide C01-C03/C13 for the inline client run through external.Open against internal/app on a loopback listener; values byte-exact, error classes via errors.Is. Exploration.",
+               "The same generated histories that decide C01-C03/C13 for the inline client run through external.Open against internal/app on a loopback listener (with server restarts, caller metadata, held readers); values byte-exact, error classes via errors.Is; two parts compare the two bindings directly call by call (keys the model does not speak about; the life of a created file), one part sends error values of arbitrary wrapping through the adapters. Exploration.",
                "DESIGN.md section 4, C11", _MODEL_NOTE + "; loopback TCP inside one process"),
     "C13": _e1("seq", "model-based stateful property testing (rapid): histories that keep using ended and never-existing transaction handles, all observers read back after every step, restart at the end",
                "35% of the operations go through ended/unknown handles; their error class and their (non-)effect on every observer and on the restarted database are compared with the model. Exploration; one known finding is excused by an exact signature.",
@@ -84,7 +84,7 @@ PER_CHECK = {
                "Close returning is decided exactly (a parked Close with nothing runnable is a deadlock verdict); content equality through Get / through the consumer. The component-level part is exhaustive up to the stated preemption bound.",
                "DESIGN.md sections 2.4 and 4, C12", "as C06; the component-level consumer mirrors pkg/inline/db/create.go"),
     "C16": _e1("detsched", "property-based testing over generated Send/Stop/Run programs x schedules on the REAL worker pool source under the cooperative scheduler; oracle = execution counters and logical timestamps",
-               "All schedules with <= 1 (quick) / <= 2 (thorough) forced preemptions of 9 catalogue programs plus up to 10^6 random-walk tapes; quiescence is exact. Exploration.",
+               "All schedules with <= 1 (quick) / <= 3 (thorough) forced preemptions of the catalogue programs plus up to 10^6 random-walk tapes; quiescence is exact. Exploration.",
                "DESIGN.md sections 2.4 and 4, C16", "trusts harness/detsync and the rewriter; virtual timers over-approximate real time"),
     "C17": _e1("seq", "model-based stateful property testing (rapid): burst histories over 1-3 roots and all clamped directory limits, directory-tree invariants after every step, reuse probe",
                "Bursts fill directories to the limit; a walk after every step checks placement, per-root availability and the entry bound; a directory that regained room must be reused within 64k writes. Exploration.",
